@@ -7,6 +7,8 @@ RULE = ('corpus, then seeded random scenarios: integer clock readings fed to the
         'negative bases, repeats, mostly non-decreasing and sometimes stepping backwards; the delta handed to process '
         'is compared with the difference of the two readings as exact rationals, never through float; 1-3 start() calls of 1-8 frames over 1-3 worlds with 1-3 '
         'processors each, in which any processor of any frame (plain, on_update callback, coroutine) quits '
+        '(processors also call the running loop directly without raising: loop.switch(handle, cc, cn), '
+        'loop.time_function = <second time function with its own readings>, read loop.current_world) '
         '(quit_loop with and without target, raise Quit), switches or raises another exception; restarts '
         'after Quit, after a propagated exception and after the clock ran out.  Non-trivial: a start() '
         'processed at least two frames or ended by Quit/exception raised by user code; distinct by text.')
@@ -32,8 +34,12 @@ def generate(rng, tier):
 
 def _line(o):
     t = o.split()
-    if t[0] in ('frame', 'proc', 'ret', 'hang'):
+    if t[0] in ('frame', 'proc', 'ret', 'hang', 'peek'):
         return o
+    if t[0] == 'tick':
+        if t[1] == 'end':
+            return None
+        return ' '.join(t[:2])          # the reading the loop took (fn=/current= fields: oracle only)
     if t[0] == 'ev' and t[2] == 'on_quit':
         return o
     return None
@@ -57,7 +63,7 @@ def project(obs):
         if o is None:
             continue
         t = o.split()
-        if t[0] in ('frame', 'proc', 'ev'):
+        if t[0] in ('frame', 'proc', 'ev', 'peek'):
             t[1] = rn(t[1])
         elif t[0] == 'ret':
             t = [('current=' + rn(x[8:])) if x.startswith('current=') else x for x in t]
@@ -69,8 +75,8 @@ def oracle(lines, obs):
     """C14's own text as a predicate over the implementation's stream; which world is current is
     taken from the implementation's own `tick`/`do` lines (which instance a switch must enter is
     C13's business).  The model's stream carries no such lines: nothing to judge there."""
-    if not any(o.startswith('tick ') or o == 'start' for o in obs):
-        return []
+    if 'start' not in obs:
+        return []          # the model's stream: no implementation-only `start`/`do`/`tick ... fn=` lines
     return spec_loop.c14_predicate(lines, obs)
 
 
@@ -93,4 +99,8 @@ def stats(scenarios, impl_obs):
             'clock_kinds': {k: sum(1 for s in scenarios if (f'clock {k}' in s) or (k == 'f8' and not any(
                 l.startswith('clock ') for l in s))) for k in ('f8', 'int', 'frac')},
             'readings_at_or_above_2**53': sum(1 for s in scenarios for l in s if l.startswith('frame ')
-                                              and abs(int(l.split()[1])) >= 2 ** 53)}
+                                              and abs(int(l.split()[1].split('/')[0])) >= 2 ** 53),
+            'scenarios_with_two_time_functions': sum(1 for s in scenarios if any(
+                l.startswith('frame ') and '/' in l.split()[1] for l in s)),
+            'direct_loop_switch_calls': sum(l.count('lswitch') for s in scenarios for l in s),
+            'time_function_assignments': sum(l.count('setclock') for s in scenarios for l in s)}
